@@ -25,13 +25,24 @@ def main():
         try:
             if a.replay:
                 rec = json.loads(open(a.replay).read())
+                if rec.get("tags", {}).get("site") == "library_raised":
+                    print("".join(rec["case"].get("traceback", [])))
+                    print(f"[{pid}] this record is the traceback of an exception that escaped from the library; "
+                          f"run ./check {pid} to reproduce it")
+                    return 1
                 vs = mod.replay(ctx, rec["case"])
                 for v in vs:
                     print(f"VIOLATION property={pid} replay={a.replay}")
                     print("  " + str(v)[:1000])
                 print(f"[{pid}] replay: {'still violates' if vs else 'no violation'}")
                 return 1 if vs else 0
-            mod.run(ctx)
+            try:
+                mod.run(ctx)
+            except core.HarnessError:
+                raise
+            except Exception as ex:
+                if not core.library_raised(ctx.col, ex, "outside the worker pool"):
+                    raise
             return core.finish(ctx, mod.LEVEL)
         finally:
             ctx.cleanup()
